@@ -67,6 +67,13 @@ type gcase struct {
 	links  []link
 	inputs [][]uint64
 	parts  []part
+	// links from a BM input that are written through a pruned pass-through instance (`fidef t pruned:true`,
+	// an instance that gets no processor): link name -> "cf" (fragment-side attach first, as cmd/neuralbond
+	// writes it) or "pf" (ext side first).  Only the text given to the real tool changes; pruning must not.
+	prune map[string]string
+	// links whose consumer-side attach line is written before the producer-side one (the order of the two
+	// filinkatt lines of a link means nothing)
+	cfirst map[string]bool
 }
 
 // ---------------------------------------------------------------------------------- serialisation
@@ -156,6 +163,22 @@ func (c *gcase) headerLines() []string {
 		} else {
 			ls = append(ls, "INPUT "+strings.Join(s, ","))
 		}
+	}
+	if len(c.prune) > 0 {
+		var ks []string
+		for k, v := range c.prune {
+			ks = append(ks, k+":"+v)
+		}
+		sort.Strings(ks)
+		ls = append(ls, "PRUNE "+strings.Join(ks, ","))
+	}
+	if len(c.cfirst) > 0 {
+		var ks []string
+		for k := range c.cfirst {
+			ks = append(ks, k)
+		}
+		sort.Strings(ks)
+		ls = append(ls, "CFIRST "+strings.Join(ks, ","))
 	}
 	return ls
 }
@@ -253,6 +276,24 @@ func parseCases(sc *bufio.Scanner) []*gcase {
 			l.srcExt, l.si, l.sp = parseEnd(f[2])
 			l.dstExt, l.di, l.dj = parseEnd(f[3])
 			cur.links = append(cur.links, l)
+		case "CFIRST":
+			if cur == nil || len(f) < 2 {
+				continue
+			}
+			cur.cfirst = map[string]bool{}
+			for _, k := range strings.Split(f[1], ",") {
+				cur.cfirst[k] = true
+			}
+		case "PRUNE":
+			if cur == nil || len(f) < 2 {
+				continue
+			}
+			cur.prune = map[string]string{}
+			for _, kv := range strings.Split(f[1], ",") {
+				if x := strings.SplitN(kv, ":", 2); len(x) == 2 {
+					cur.prune[x[0]] = x[1]
+				}
+			}
 		case "INPUT":
 			if cur == nil {
 				continue
@@ -318,23 +359,52 @@ func (c *gcase) basmText(p part, fiOrder []int) string {
 		}
 		b.WriteString("%endfragment\n")
 	}
+	if len(c.prune) > 0 {
+		b.WriteString("%fragment prterminal resin:r0 resout:r0\n%endfragment\n")
+	}
 	b.WriteString("\n")
 	for _, i := range fiOrder {
 		fmt.Fprintf(&b, "%%meta fidef %s fragment:%s\n", c.insts[i].name, c.insts[i].frag.name)
 	}
+	tail := ""
 	for _, l := range c.links {
+		if how, ok := c.prune[l.name]; ok && l.srcExt && !l.dstExt {
+			// BM input -> pruned pass-through instance -> the consumer
+			t := "prt_" + l.name
+			fmt.Fprintf(&b, "%%meta fidef %s fragment:prterminal\n%%meta fidef %s pruned:true\n", t, t)
+			fmt.Fprintf(&b, "%%meta filinkdef %s_in type:fl\n", l.name)
+			ext := fmt.Sprintf("%%meta filinkatt %s_in fi:ext, type:input, index:%d\n", l.name, l.si)
+			frs := fmt.Sprintf("%%meta filinkatt %s_in fi:%s, type:input, index:0\n", l.name, t)
+			if how == "cf" {
+				b.WriteString(frs + ext)
+			} else {
+				b.WriteString(ext + frs)
+			}
+			// (the second half of the link is written after all the others, as in neuralbond's output)
+			tail += fmt.Sprintf("%%meta filinkdef %s type:fl\n", l.name)
+			tail += fmt.Sprintf("%%meta filinkatt %s fi:%s, type:output, index:0\n", l.name, t)
+			tail += fmt.Sprintf("%%meta filinkatt %s fi:%s, type:input, index:%d\n", l.name, c.iname(l.di), l.dj)
+			continue
+		}
 		fmt.Fprintf(&b, "%%meta filinkdef %s type:fl\n", l.name)
+		var src, dst string
 		if l.srcExt {
-			fmt.Fprintf(&b, "%%meta filinkatt %s fi:ext, type:input, index:%d\n", l.name, l.si)
+			src = fmt.Sprintf("%%meta filinkatt %s fi:ext, type:input, index:%d\n", l.name, l.si)
 		} else {
-			fmt.Fprintf(&b, "%%meta filinkatt %s fi:%s, type:output, index:%d\n", l.name, c.iname(l.si), l.sp)
+			src = fmt.Sprintf("%%meta filinkatt %s fi:%s, type:output, index:%d\n", l.name, c.iname(l.si), l.sp)
 		}
 		if l.dstExt {
-			fmt.Fprintf(&b, "%%meta filinkatt %s fi:ext, type:output, index:%d\n", l.name, l.di)
+			dst = fmt.Sprintf("%%meta filinkatt %s fi:ext, type:output, index:%d\n", l.name, l.di)
 		} else {
-			fmt.Fprintf(&b, "%%meta filinkatt %s fi:%s, type:input, index:%d\n", l.name, c.iname(l.di), l.dj)
+			dst = fmt.Sprintf("%%meta filinkatt %s fi:%s, type:input, index:%d\n", l.name, c.iname(l.di), l.dj)
+		}
+		if c.cfirst[l.name] {
+			b.WriteString(dst + src)
+		} else {
+			b.WriteString(src + dst)
 		}
 	}
+	b.WriteString(tail)
 	for _, cp := range p.cps {
 		names := make([]string, len(cp.list))
 		for k, i := range cp.list {
@@ -647,6 +717,22 @@ func genCase(r *common.Rng, id string, thorough bool) *gcase {
 			row[i] = []uint64{0, 1, mask, r.Next() & mask, r.Next() & 15, r.Next() & mask}[r.Intn(6)]
 		}
 		c.inputs = append(c.inputs, row)
+	}
+	if r.Chance(1, 3) {
+		c.cfirst = map[string]bool{}
+		for _, l := range c.links {
+			if r.Chance(1, 2) {
+				c.cfirst[l.name] = true
+			}
+		}
+	}
+	if r.Chance(1, 4) {
+		c.prune = map[string]string{}
+		for _, l := range c.links {
+			if l.srcExt && !l.dstExt && r.Chance(1, 2) {
+				c.prune[l.name] = []string{"cf", "pf"}[r.Intn(2)]
+			}
+		}
 	}
 	c.genParts(r, thorough)
 	return c
